@@ -502,12 +502,26 @@ func C10(c *core.Ctx) {
 		frames = append(frames, ci)
 	}
 	c.Floor("R10.3", "sendFrame call sites in sendPacket", len(frames), 1)
+	// the length of the packet's bytes (not of a list of fragments: the continuation test
+	// of `for i := range fragments` is no size test)
+	isWireLen := func(v ssa.Value) bool {
+		l, isLen := core.LenOf(v)
+		if !isLen {
+			return false
+		}
+		sl, isSl := l.Type().Underlying().(*types.Slice)
+		if !isSl {
+			return false
+		}
+		b, isB := sl.Elem().Underlying().(*types.Basic)
+		return isB && b.Kind() == types.Byte
+	}
 	over := &core.Atom{Name: "len(wire)>effectiveMtu", Match: func(cond ssa.Value) (int, int) {
-		op, x, y, ok := core.CmpOrient(cond, core.IsLen)
+		op, x, y, ok := core.CmpOrient(cond, isWireLen)
 		if !ok {
 			return 0, 0
 		}
-		if _, isLen := core.LenOf(x); !isLen {
+		if !isWireLen(x) {
 			return 0, 0
 		}
 		if _, isC := core.ConstInt(y); isC {
